@@ -512,3 +512,6 @@ def pe_post(ctx, st, result):
 
 
 UNITS.append(Unit("C04", "jsonargparse._core:ArgumentParser.parse_env", pe_setup, pe_post, no_exc))
+
+from contracts.check_type import typehint_call_unit  # noqa: E402
+UNITS.append(typehint_call_unit("C04"))
